@@ -11,7 +11,7 @@ pub fn run(r: &Report) -> i32 {
     // quick: depth 1 + planner-relevant depth 2/3 (reduced owner / output sets) + curated families
     if !thorough {
         for p in progs.iter_mut() {
-            if p.outs.is_some() {
+            if p.outs.is_some() && p.outs != Some(crate::mpcx::output_lists_unsorted()) {
                 if let Some(o) = p.owners.as_mut() {
                     o.truncate(3);
                 }
